@@ -50,6 +50,12 @@ func main() {
 		for _, id := range core.IDs() {
 			fmt.Println(id, core.Lookup(id).Title)
 		}
+	case "selftest-ref":
+		dir := "/repo/testdata"
+		if len(pos) > 1 {
+			dir = pos[1]
+		}
+		os.Exit(core.SelfTest(dir))
 	case "race-pass":
 		if core.RacePass == nil {
 			fmt.Fprintln(os.Stderr, "race-pass needs the instrumented (verif-tagged) build")
